@@ -436,8 +436,12 @@ impl Property for C05 {
                             continue;
                         }
                         if !same {
+                            // the untyped-arithmetic finding is about unsigned operands: a wrong value of a
+                            // macro in which one takes part belongs to it even where the classifier's own
+                            // re-evaluation happens to agree with C
+                            let known_class = known_class.or(if m.involves_unsigned && m.kind == "int" { Some("untyped-i64-arithmetic") } else { None });
                             let class = known_class.unwrap_or(if m.kind == "char" { "char" } else { "mismatch" });
-                            out.fail(format!("macro-value/{class}"), ctx(&format!("`{}` ({mt}): C = {cv}, Rust = {rv}", m.name)));
+                            out.fail(format!("macro-value/{class}"), ctx(&format!("`{}` ({mt}): C = {cv}, Rust = {rv} [model {:?}, untyped {:?}, untyped with fallback {:?}]", m.name, m.model.map(|v| v.v), m.untyped, m.untyped_fb)));
                         }
                         if m.kind == "int" && !m.features.is_disjoint(&["add-sub", "mul-div-rem", "shift", "bitwise", "neg", "bitnot", "macro-ref"].into_iter().collect()) {
                             compared_op_macro = true;
